@@ -52,6 +52,8 @@ import (
 	"github.com/kubewharf/kubegateway/pkg/clusters/features"
 	"github.com/kubewharf/kubegateway/pkg/gateway/controllers"
 	"github.com/kubewharf/kubegateway/pkg/gateway/endpoints/filters"
+	proxyoptions "github.com/kubewharf/kubegateway/pkg/gateway/proxy/options"
+	"github.com/kubewharf/kubegateway/pkg/syncqueue"
 	gwrequest "github.com/kubewharf/kubegateway/pkg/gateway/endpoints/request"
 	upstreamclusteradmission "github.com/kubewharf/kubegateway/plugin/admission/upstreamcluster"
 )
@@ -180,6 +182,7 @@ type jOp struct {
 	Obj   *jObj  `json:"obj"`
 	Name  B      `json:"name"`
 	K     int    `json:"k"`
+	Tomb  bool   `json:"tomb"` // delete: the event is a cache.DeletedFinalStateUnknown tombstone
 }
 
 type jCase struct {
@@ -191,6 +194,8 @@ type jCase struct {
 	Views    bool  `json:"views"`
 	NoSteps  bool  `json:"nosteps"` // C11: no per-step host probes
 	XP       [][2]B `json:"xp"`     // C10: requests with Host = [0] arriving on a TLS connection whose SNI was [1]
+	Via      int    `json:"via"`    // 0: events call syncUpstreamCluster directly; 1: through the real event handler + queue
+	Mid      bool   `json:"mid"`    // C10: probe all hosts after every single manager mutation of a delivery
 }
 
 var gateNames = []string{"CloseConnectionWhenIdle", "DenyAllRequests", "GlobalRateLimiter", "Tracing", "NoSuchGate"}
@@ -301,24 +306,109 @@ func buildObj(o *jObj) *proxyv1alpha1.UpstreamCluster {
 
 // ------------------------------------------------------------------ gateway under test
 
+// fakeInformer gives the REAL constructor NewUpstreamClusterController what it asks of an informer: it keeps the
+// event handler the constructor registers (the real queue.ResourceEventHandler), reports "synced", and is
+// backed by the indexer that plays the API store.
+type fakeInformer struct {
+	cache.SharedIndexInformer
+	handlers []cache.ResourceEventHandler
+	idx      cache.Indexer
+}
+
+func (f *fakeInformer) AddEventHandler(h cache.ResourceEventHandler) { f.handlers = append(f.handlers, h) }
+func (f *fakeInformer) HasSynced() bool                               { return true }
+func (f *fakeInformer) GetIndexer() cache.Indexer                     { return f.idx }
+func (f *fakeInformer) GetStore() cache.Store                         { return f.idx }
+
+type fakeUCInformer struct {
+	inf *fakeInformer
+	l   proxylisters.UpstreamClusterLister
+}
+
+func (f *fakeUCInformer) Informer() cache.SharedIndexInformer          { return f.inf }
+func (f *fakeUCInformer) Lister() proxylisters.UpstreamClusterLister { return f.l }
+
+// probingManager wraps the controller's real clusters.Manager: after every single mutation of the manager
+// (inside one syncUpstreamCluster call) it lets the harness run its resolution probes.
+type probingManager struct {
+	clusters.Manager
+	after func()
+}
+
+func (p *probingManager) Add(c *clusters.ClusterInfo)                   { p.Manager.Add(c); p.after() }
+func (p *probingManager) AddWithKey(k string, c *clusters.ClusterInfo) { p.Manager.AddWithKey(k, c); p.after() }
+func (p *probingManager) Delete(k string)                              { p.Manager.Delete(k); p.after() }
+func (p *probingManager) DeleteWithStop(k string)                      { p.Manager.DeleteWithStop(k); p.after() }
+func (p *probingManager) DeleteAll()                                   { p.Manager.DeleteAll(); p.after() }
+
+type syncCall struct {
+	obj interface{}
+	res string
+}
+
 type gateway struct {
 	indexer cache.Indexer
 	lister  proxylisters.UpstreamClusterLister
 	ctl     *controllers.UpstreamClusterController
+	queue   *syncqueue.SyncQueue
+	handler cache.ResourceEventHandler // what the real constructor registered on the informer
 	plugin  admission.ValidationInterface
 	fplugin admission.ValidationInterface // same real plugin over an EMPTY store: field validation only
+	calls   []syncCall                    // results of the sync handler, as the queue saw them
+	midOn   bool
+	midHosts []B
+	mid     [][]hostObs
+}
+
+func resString(res syncqueue.Result, err error) string {
+	switch {
+	case err != nil:
+		return "err"
+	case res.RequeueAfter > 0 || res.Requeue:
+		return "requeue"
+	}
+	return "ok"
 }
 
 func newGateway() *gateway {
 	idx := cache.NewIndexer(cache.MetaNamespaceKeyFunc, cache.Indexers{cache.NamespaceIndex: cache.MetaNamespaceIndexFunc})
 	l := proxylisters.NewUpstreamClusterLister(idx)
-	return &gateway{indexer: idx, lister: l, ctl: controllers.VerifNewUpstreamClusterController(l),
+	inf := &fakeInformer{idx: idx}
+	g := &gateway{indexer: idx, lister: l,
 		plugin: upstreamclusteradmission.VerifNewPlugin(l),
 		fplugin: upstreamclusteradmission.VerifNewPlugin(proxylisters.NewUpstreamClusterLister(
 			cache.NewIndexer(cache.MetaNamespaceKeyFunc, cache.Indexers{cache.NamespaceIndex: cache.MetaNamespaceIndexFunc})))}
+	// the REAL constructor: real queue, real event handler registration, real manager
+	g.ctl = controllers.NewUpstreamClusterController(&fakeUCInformer{inf: inf, l: l}, &proxyoptions.RateLimiterOptions{})
+	if len(inf.handlers) != 1 {
+		panic(fmt.Sprintf("constructor registered %d event handlers", len(inf.handlers)))
+	}
+	g.handler = inf.handlers[0]
+	g.ctl.Manager = &probingManager{Manager: g.ctl.Manager, after: func() {
+		if g.midOn {
+			obs := []hostObs{}
+			for _, h := range g.midHosts {
+				obs = append(obs, g.resolve(h.S()))
+			}
+			g.mid = append(g.mid, obs)
+		}
+	}}
+	g.queue = g.ctl.VerifQueue()
+	g.queue.VerifWrapHandler(func(h syncqueue.SyncHandler) syncqueue.SyncHandler {
+		return func(obj interface{}) (syncqueue.Result, error) {
+			res, err := h(obj)
+			g.calls = append(g.calls, syncCall{obj: obj, res: resString(res, err)})
+			return res, err
+		}
+	})
+	return g
 }
 
-func (g *gateway) stop() { g.ctl.DeleteAll() }
+func (g *gateway) stop() {
+	g.midOn = false
+	g.ctl.DeleteAll()
+	g.queue.ShutDown()
+}
 
 func (g *gateway) admit(obj *proxyv1alpha1.UpstreamCluster) bool {
 	op := admission.Create
@@ -337,15 +427,38 @@ func (g *gateway) fieldValid(obj *proxyv1alpha1.UpstreamCluster) bool {
 	return g.fplugin.Validate(context.TODO(), attrs, nil) == nil
 }
 
-func (g *gateway) deliver(obj *proxyv1alpha1.UpstreamCluster) string {
-	res, err := g.ctl.VerifSync(obj)
-	switch {
-	case err != nil:
-		return "err"
-	case res.RequeueAfter > 0 || res.Requeue:
-		return "requeue"
+// deliver hands one event to the gateway.  via == 0: syncUpstreamCluster is called directly.  via == 1: the event
+// goes to the REAL event handler the constructor registered (queue.ResourceEventHandler), then the real worker
+// step runs until the queue is empty; "none" = the handler did not enqueue anything (the event was dropped).
+//   kind: add | update | delete | tomb (deletion seen by a relist: cache.DeletedFinalStateUnknown) | retry
+func (g *gateway) deliver(obj, old *proxyv1alpha1.UpstreamCluster, kind string, via int) string {
+	if via == 0 {
+		res, err := g.ctl.VerifSync(obj)
+		return resString(res, err)
 	}
-	return "ok"
+	g.calls = nil
+	switch kind {
+	case "add":
+		g.handler.OnAdd(obj)
+	case "update":
+		g.handler.OnUpdate(old, obj)
+	case "delete":
+		g.handler.OnDelete(obj)
+	case "tomb":
+		g.handler.OnDelete(cache.DeletedFinalStateUnknown{Key: obj.Name, Obj: obj})
+	case "retry":
+		g.queue.Enqueue(obj) // what a requeue / resync does: the same object is put on the queue again
+	}
+	for g.queue.Queue().Len() > 0 {
+		g.queue.VerifProcessNext()
+	}
+	res := "none"
+	for _, c := range g.calls {
+		if c.obj == interface{}(obj) {
+			res = c.res
+		}
+	}
+	return res
 }
 
 type hostObs struct {
@@ -552,6 +665,7 @@ type stepObs struct {
 	Res       string    `json:"res"`       // ok | requeue | err | none
 	Hosts     []hostObs `json:"hosts"`
 	X         []xObs    `json:"x"`
+	Mid       [][]hostObs `json:"mid"` // probes after every manager mutation during the delivery
 }
 
 type histObs struct {
@@ -571,17 +685,26 @@ func runHistory(raw json.RawMessage) interface{} {
 	out := histObs{Steps: []stepObs{}, Hot: []viewObs{}, Fresh: []viewObs{}, FreshRes: []string{}, Latest: []B{}}
 	delivered := make([]*proxyv1alpha1.UpstreamCluster, len(c.Ops))
 	for i, op := range c.Ops {
-		st := stepObs{Res: "none", Hosts: []hostObs{}, X: []xObs{}}
+		st := stepObs{Res: "none", Hosts: []hostObs{}, X: []xObs{}, Mid: [][]hostObs{}}
+		g.mid = nil
+		g.midHosts = c.Hosts
+		g.midOn = c.Mid && !c.NoSteps
 		switch op.Op {
 		case "apply":
 			obj := buildObj(op.Obj)
 			st.Valid = g.admit(obj)
 			st.FValid = g.fieldValid(obj)
 			if st.Valid || op.Force {
+				var old *proxyv1alpha1.UpstreamCluster
+				kind := "add"
+				if item, exists, _ := g.indexer.GetByKey(obj.Name); exists {
+					old = item.(*proxyv1alpha1.UpstreamCluster)
+					kind = "update"
+				}
 				must(g.indexer.Add(obj))
 				delivered[i] = obj
 				st.Delivered = true
-				st.Res = g.deliver(obj)
+				st.Res = g.deliver(obj, old, kind, c.Via)
 			}
 		case "delete":
 			item, exists, err := g.indexer.GetByKey(op.Name.S())
@@ -591,16 +714,24 @@ func runHistory(raw json.RawMessage) interface{} {
 				must(g.indexer.Delete(obj))
 				delivered[i] = obj
 				st.Delivered = true
-				st.Res = g.deliver(obj)
+				kind := "delete"
+				if op.Tomb {
+					kind = "tomb"
+				}
+				st.Res = g.deliver(obj, nil, kind, c.Via)
 			}
 		case "retry":
 			if op.K >= 0 && op.K < i && delivered[op.K] != nil {
 				delivered[i] = delivered[op.K]
 				st.Delivered = true
-				st.Res = g.deliver(delivered[op.K])
+				st.Res = g.deliver(delivered[op.K], nil, "retry", c.Via)
 			}
 		default:
 			panic("unknown op " + op.Op)
+		}
+		g.midOn = false
+		if g.mid != nil {
+			st.Mid = g.mid
 		}
 		if !c.NoSteps {
 			for _, h := range c.Hosts {
@@ -640,7 +771,7 @@ func runHistory(raw json.RawMessage) interface{} {
 		for _, it := range ordered {
 			obj := it.(*proxyv1alpha1.UpstreamCluster)
 			out.Latest = append(out.Latest, toB(obj.Name))
-			out.FreshRes = append(out.FreshRes, f.deliver(obj))
+			out.FreshRes = append(out.FreshRes, f.deliver(obj, nil, "add", c.Via))
 		}
 		for _, n := range c.Clusters {
 			out.Fresh = append(out.Fresh, f.view(n.S(), c.Schemas, c.Hosts))
